@@ -40,6 +40,8 @@ class Compiler:
             return [("PUSH", 32 * e[1]), "CALLDATALOAD"]
         if k == "cdo":
             return [("PUSH", e[1]), "CALLDATALOAD"]
+        if k == "cdx":  # CALLDATALOAD at a computed offset
+            return self.expr(e[1]) + ["CALLDATALOAD"]
         if k == "env":
             return [e[1]]
         if k == "op1":
